@@ -19,6 +19,7 @@ LEVEL_TEXT = (
     'byte; on the wire the outcome is "session continues" or one NOTIFICATION with a defined (code, subcode); afterwards the speaker still '
     'reports a benign UPDATE or answers an API command (not wedged); bodies valid by construction are never refused.'
     ' Session kinds include `local-as auto` and peers writing their OPEN in the RFC 9072 extended format; a session that only sent its well-formed OPEN and is answered with a NOTIFICATION counts as a refused valid message.'
+    ' ADD-PATH churn (announces and withdraws over two prefixes and three path identifiers, withdraws of paths never announced) with and without PATHS-LIMIT.'
 )
 LEVEL_NOTE = 'trusts: the work measure (Python-level calls during Message.unpack, bound 4000 + 160 per body byte) as a proxy for time; the table of defined NOTIFICATION codes'
 DESIGN_REF = 'DESIGN.md section 5, C03'
